@@ -11,6 +11,7 @@ func init() {
 		Explain: "Recipient rules decided on the three routers for every router state and message: (R06.1) the protobuf placed in outgoing RPCs is the accepted msg.Message pointer itself, and (with R03.6, re-evaluated here) no code writes fields of an accepted pb.Message; (R06.2) every send/yield is — through the recipient sets it ranges over — behind the false edges of `peer == msg.ReceivedFrom` and `peer == author`; (R06.3) every recipient is a key of p.topics[topic], a mesh/fanout member, or dominated by a successful lookup in the topic map; (R06.4) the router is handed only non-local messages (single and batch path); (R06.5) mesh/fanout recipients are skipped exactly when they declared the message unwanted; (R06.6) inclusion as implication checks: a direct topic peer, a floodsub-only topic peer at/above the publish threshold, a flood-publish topic peer that is direct or at/above the threshold, and a mesh/fanout member that did not declare the message unwanted can only miss the recipient set on a path that refutes that condition, and a collected recipient is only skipped by the source/author/partial-message exclusions; (R06.7) fanout is used only when the topic is not joined, its lastpub stamp is refreshed on every use, it is re-drawn only when empty, expires only after FanoutTTL without publishing and loses members only when they left the topic or fell below the publish threshold. (R06.3 after the audit round) mesh/fanout members get no exemption: a member that never subscribed or unsubscribed without PRUNE is not a topic peer. (second wave) R06.7: the expiry arithmetic is in age form (the sum form overflows). NOT decided: that an outbound stream exists, random selection of randomsub beyond RandomSubD, the exact size of the fanout set.",
 		Assume:  []string{"p.topics[topic] holds exactly the peers known to be in the topic (C05)", "gs.mesh/gs.fanout members are topic peers (C07)"},
 		Mutants: []Mutant{
+			{Name: "flood-publish-by-author", File: "gossipsub.go", Old: "\t\tif gs.floodPublish && from == gs.p.host.ID() {", New: "\t\tif gs.floodPublish && msg.GetFrom() == gs.p.host.ID() {", Expect: "R06.6"},
 			{Name: "fanout-expiry-sum-form", File: "gossipsub.go", Old: "\t\tif now-lastpub > int64(gs.params.FanoutTTL) {", New: "\t\tif lastpub+int64(gs.params.FanoutTTL) < now {", Expect: "R06.7"},
 			{Name: "flood-forwards-copy", File: "floodsub.go", Old: "\tout := rpcWithMessages(msg.Message)\n\tfor pid := range fs.p.topics[topic] {", New: "\tcp := *msg.Message\n\tout := rpcWithMessages(&cp)\n\tfor pid := range fs.p.topics[topic] {", Expect: "R06.1"},
 			{Name: "flood-echo-to-author", File: "floodsub.go", Old: "\t\tif pid == from || pid == peer.ID(msg.GetFrom()) {", New: "\t\tif pid == from {", Expect: "R06.2"},
